@@ -40,7 +40,11 @@ def _logging_interp(ctx):
 
     def mk(q):
         def summ(interp, args, kwargs, node):
-            log_event('check', q, args[0] if args else None)
+            v = args[0] if args else None
+            if isinstance(v, AList) and v.kind == 'iterator':
+                # the real check loops over its argument: a one-shot iterable is used up by it
+                v = AList(interp.iterate(v, node, keep_vars=True), 'list')
+            log_event('check', q, v)
             return None
         return summ
     for q in byq:
@@ -72,10 +76,28 @@ def _checked_before_stores(log, table, obj, expect):
     return True, ''
 
 
-def _markers(row):
+def _stored_items_checked(log, table, obj, attr):
+    """One-shot iterables: whatever ends up stored under `attr` must have been seen, item for item, by the attribute's check before
+    the first store (an iterator used up by an earlier consumer makes the later one see nothing)."""
+    first_store = next((i for i, e in enumerate(log) if e[0] == 'store' and e[1] is obj), len(log))
+    stored = obj.attrs.get(attr)
+    items = [x for x in stored.items if isinstance(x, SeqVar)] if isinstance(stored, AList) else []
+    ref = table.get(attr)
+    q = ref.info.qname if isinstance(ref, FuncRef) else None
+    seen = []
+    for e in log[:first_store]:
+        if e[0] == 'check' and e[1] == q and isinstance(e[2], AList):
+            seen.extend(x for x in e[2].items if isinstance(x, SeqVar))
+    missing = [x for x in items if not any(x is y for y in seen)]
+    if missing:
+        return False, f'items {missing!r} taken from a one-shot iterable are stored under {attr!r} although the check never saw them (it ran on the exhausted iterator)'
+    return True, ''
+
+
+def _markers(row, one_shot=False):
     out = {}
     for n in row['value_names']:
-        out[n] = AList([SeqVar(f'M_{n}', 1 << 20)], 'list') if n == 'data' else Opaque(f'M_{n}')
+        out[n] = AList([SeqVar(f'M_{n}', 1 << 20)], 'iterator' if one_shot else 'list') if n == 'data' else Opaque(f'M_{n}')
     out['time'] = Opaque('M_time')
     return out
 
@@ -207,10 +229,10 @@ def r03_3_setattr(ctx):
     w = ctx.where(fn)
     S = codec.specs(ctx)
     n = 0
-    for row in S:
+    for row, one_shot in [(r, False) for r in S] + [(r, True) for r in S if 'data' in r['value_names']]:
         t = row['type']
-        mk = _markers(row)
-        for attr in list(row['value_names']) + ['time']:
+        for attr in (list(row['value_names']) + ['time']) if not one_shot else ['data']:
+            mk = _markers(row, one_shot)
             holder = {}
 
             def thunk():
@@ -220,13 +242,17 @@ def r03_3_setattr(ctx):
                 return ai.call_function(fn, [obj, attr, mk[attr]], {})
             outs = ai.explore(thunk)
             n += 1
-            inst = f'setattr({t}.{attr})'
+            inst = f'setattr({t}.{attr}{" = one-shot iterable" if one_shot else ""})'
             cons = f'{fn.qname}::{"data" if attr == "data" else "time" if attr == "time" else "value"}'
             if [o.kind for o in outs] != ['return']:
                 ctx.fail('R03.3', inst, w, f'assignment of a (checked) value does not complete on one path: {outs}',
                          construct=cons + '::outcomes')
                 continue
             obj = holder['obj']
+            if one_shot:
+                ok, why = _stored_items_checked(outs[0].log, table, obj, attr)
+                ctx.require(ok, 'R03.3', inst, w, why, construct=cons + '::check-before-store')
+                continue
             ok, why = _checked_before_stores(outs[0].log, table, obj, {attr: mk[attr]})
             ctx.require(ok, 'R03.3', inst, w, why, construct=cons + '::check-before-store')
             after = obj.attrs
@@ -241,7 +267,7 @@ def r03_3_setattr(ctx):
                 ctx.require(isinstance(after.get('data'), AList) and after['data'].kind == 'tuple', 'R03.3',
                             f'{inst}.normalised', w, 'sysex data is not normalised to a SysexData tuple',
                             construct=cons + '::normalised')
-        for bad, what in (('type', 'type'), ('no_such_attribute', 'unknown')):
+        for bad, what in (('type', 'type'), ('no_such_attribute', 'unknown')) if not one_shot else ():
             holder = {}
 
             def thunk():
@@ -268,22 +294,29 @@ def r03_3_init(ctx):
     w = ctx.where(fn)
     S = codec.specs(ctx)
     n = 0
-    for row in S:
+    for row, one_shot in [(r, False) for r in S] + [(r, True) for r in S if 'data' in r['value_names']]:
         t = row['type']
-        mk = _markers(row)
+        mk = _markers(row, one_shot)
         holder = {}
 
         def thunk():
             obj = AObj(cls, {})
             holder['obj'] = obj
+            for v in mk.values():
+                if isinstance(v, AList):
+                    v.consumed = False
             return ai.call_function(fn, [obj, t], dict(mk))
         outs = ai.explore(thunk)
         n += 1
-        inst = f'Message({t}, **all)'
+        inst = f'Message({t}, **all{", data = one-shot iterable" if one_shot else ""})'
         if [o.kind for o in outs] != ['return']:
             ctx.fail('R03.1', inst, w, f'constructor outcomes: {outs}', construct=f'{fn.qname}::outcomes')
             continue
         obj = holder['obj']
+        if one_shot:
+            ok, why = _stored_items_checked(outs[0].log, table, obj, 'data')
+            ctx.require(ok, 'R03.1', inst, w, why, construct=f'{fn.qname}::check-before-store')
+            continue
         ok, why = _checked_before_stores(outs[0].log, table, obj, mk)
         ctx.require(ok, 'R03.1', inst, w, why, construct=f'{fn.qname}::check-before-store')
         ctx.require(set(obj.attrs) == set(row['value_names']) | {'type', 'time'} and obj.attrs.get('type') == t,
@@ -332,10 +365,10 @@ def r03_3_copy(ctx):
     w = ctx.where(fn)
     S = codec.specs(ctx)
     n = 0
-    for row in S:
+    for row, one_shot in [(r, False) for r in S] + [(r, True) for r in S if 'data' in r['value_names']]:
         t = row['type']
-        mk = _markers(row)
-        for attr in list(row['value_names']) + ['time']:
+        for attr in (list(row['value_names']) + ['time']) if not one_shot else ['data']:
+            mk = _markers(row, one_shot)
             holder = {}
 
             def thunk():
@@ -345,7 +378,7 @@ def r03_3_copy(ctx):
                 return ai.call_function(fn, [obj], {attr: mk[attr]})
             outs = ai.explore(thunk)
             n += 1
-            inst = f'copy({t}, {attr}=)'
+            inst = f'copy({t}, {attr}={"<one-shot iterable>" if one_shot else ""})'
             obj = holder['obj']
             for o_ in outs:
                 wrote = [e for e in o_.log if e[0] == 'store' and e[1] is obj]
@@ -358,10 +391,16 @@ def r03_3_copy(ctx):
             new = outs[0].value
             ctx.require(new is not obj and new.cls == cls, 'R03.3', f'{inst}.new-object', w,
                         'copy() does not return a new object of the same class', construct=f'{fn.qname}::new-object')
+            if one_shot:
+                ok, why = _stored_items_checked(outs[0].log, table, new, attr)
+                ctx.require(ok, 'R03.3', inst, w, why, construct=f'{fn.qname}::check-before-store')
+                continue
             ok, why = _checked_before_stores(outs[0].log, table, new, {attr: mk[attr]})
             ctx.require(ok, 'R03.3', inst, w, why, construct=f'{fn.qname}::check-before-store')
             ctx.require(_derived(new.attrs.get(attr), mk[attr]) and set(new.attrs) == set(holder['before']),
                         'R03.3', f'{inst}.result', w, f'copy result attributes {new.attrs!r}', construct=f'{fn.qname}::result')
+        if one_shot:
+            continue
         # type change / unknown attribute rejected, original untouched
         for kw, what in (({'type': 'no_such_type'}, 'type'), ({'no_such_attribute': Opaque('x')}, 'unknown')):
             holder = {}
